@@ -34,6 +34,20 @@ def mutated_fields(repo, ci):
         for mn, fn in c.methods.items():
             if mn in ('__init__', 'copy', '__copy__', '__deepcopy__'):
                 continue
+            # names that may denote self or a shallow copy of self (which shares every field object with self):
+            #   args = self if inplace else copy.copy(self)
+            selfish = {'self'}
+            for _ in range(2):
+                for a in ast.walk(fn):
+                    if isinstance(a, ast.Assign) and len(a.targets) == 1 and isinstance(a.targets[0], ast.Name):
+                        vals = [a.value.body, a.value.orelse] if isinstance(a.value, ast.IfExp) else [a.value]
+                        for v in vals:
+                            if (isinstance(v, ast.Name) and v.id in selfish) or (
+                                    isinstance(v, ast.Call) and dotted(v.func) in ('copy.copy',) and v.args and isinstance(v.args[0], ast.Name) and v.args[0].id in selfish):
+                                selfish.add(a.targets[0].id)
+
+            def is_self_attr(node, _s=selfish):   # noqa: F811 - shadows the module-level helper for this method only
+                return isinstance(node, ast.Attribute) and isinstance(node.value, ast.Name) and node.value.id in _s
             for n in ast.walk(fn):
                 f = None
                 if isinstance(n, ast.Subscript) and isinstance(n.ctx, (ast.Store, ast.Del)):
